@@ -87,7 +87,7 @@ fn api_job(ctx: &Ctx, job: usize, iters: u64) -> Stats {
     let mut st = Stats::new();
     let mut rng = Rng::stream(ctx.seed, "C11.api", job as u64);
     for it in 0..iters {
-        let pool: &[&str] = if it % 5 == 0 { &gen::FANCY_NAMES } else if it % 10 == 1 { &gen::MARK_NAMES } else { &gen::PLAIN_NAMES };
+        let pool: &[&str] = if it % 5 == 0 { &gen::FANCY_NAMES } else if it % 10 == 1 { gen::rare_pool(it / 16 as u64) } else { &gen::PLAIN_NAMES };
         let k = 3 + rng.usize(3);
         let mut names: Vec<&str> = pool.to_vec();
         rng.shuffle(&mut names);
@@ -229,7 +229,7 @@ fn cli_job(ctx: &Ctx, job: usize, iters: u64) -> Stats {
     let mut st = Stats::new();
     let mut rng = Rng::stream(ctx.seed, "C11.cli", job as u64);
     for i in 0..iters {
-        let pool: &[&str] = if i % 4 == 0 { &gen::FANCY_NAMES } else if i % 4 == 1 { &gen::MARK_NAMES } else { &gen::PLAIN_NAMES };
+        let pool: &[&str] = if i % 4 == 0 { &gen::FANCY_NAMES } else if i % 4 == 1 { gen::rare_pool(i / 16 as u64) } else { &gen::PLAIN_NAMES };
         let k = 3 + rng.usize(3);
         let mut names: Vec<&str> = pool.to_vec();
         rng.shuffle(&mut names);
